@@ -364,7 +364,9 @@ def register_pandas():
     def normalize_extension_array(arr):
         import numpy as np
 
-        return normalize_token(np.asarray(arr))
+        # The dtype is not determined by the converted values: Int64 and
+        # Float64 arrays with a missing value both convert to float64 with nan
+        return [normalize_token(np.asarray(arr)), normalize_token(arr.dtype)]
 
     # Dtypes
     @normalize_token.register(pd.api.types.CategoricalDtype)
